@@ -282,6 +282,14 @@ func mkEvent(kind, ref string) event.IEvent {
 		}
 		return event.NewMessageEvent(ref, nil)
 	}
+	switch kind {
+	case "escalation":
+		ev := event.MakeEscalationEvent(ref)
+		return &ev
+	case "error":
+		ev := event.MakeErrorEvent(ref)
+		return &ev
+	}
 	return event.NewSignalEvent(ref)
 }
 
